@@ -12,6 +12,25 @@ import Lumina.Gen.C43
 namespace Lumina.Props.C43
 open Lumina.Model.TxSeq Lumina.Proofs.TxSeq
 
+/-
+  FULL STATEMENT (as ONE theorem it is not proved): "for every input history, the observer's ledger
+  of `Lumina/Spec/C43.lean` (`ledgerStep`, the checker that the correspondence run evaluates on the
+  IMPLEMENTATION's lines) accepts every line the model prints".  What is proved below are the
+  ledger's rules one by one, each for ALL histories / all reachable states, stated on the model's
+  own events:
+    * rule "signed with the believed sequence", "advance by one per accepted broadcast", "resync on
+      mismatch", "rollback on non-sequence rejection"   — `seq_discipline` (+ `believedAfter`)
+    * rule "never re-signed after acceptance"            — `never_resigned`
+    * rule "pending broadcast/simulation = last signed"  — `broadcast_is_last_signed`
+    * rule "evicted ⇒ re-broadcast of the accepted transaction" — `evicted_rebroadcast`,
+      `rebroadcast_answer_signs_nothing`
+    * the message parser behind "resync to the node's expected value" — `extractSequence_grammar`
+  Missing for the single-theorem form: the bookkeeping equalities between the ledger's own maps
+  (`accepted`, `lastSigned`, `prev`) and the model state (`acc`, phases), i.e. that the ledger
+  CLASSIFIES each answer the way `believedAfter` does.  On the implementation side the ledger
+  itself is evaluated on every generated history.
+-/
+
 /-- the message pattern regenerated from `/repo/grpc/src/client.rs` is the one the model parses -/
 theorem consts_eq : Lumina.Gen.C43.SEQUENCE_ERROR_PAT.toList = SEQUENCE_ERROR_PAT := by decide
 
